@@ -99,7 +99,15 @@ def generate(rng, focus, tier="quick"):
         T = rng.randrange(d0, d1 + 1)
     kind = rng.choice(REWRITES)
     mb = rewrite_future(rng, market, T, kind)
-    return {"world": NAME, "cfg": cfg, "market": market, "market_b": mb, "T": T, "rewrite": kind}
+    plan = {"world": NAME, "cfg": cfg, "market": market, "market_b": mb, "T": T, "rewrite": kind}
+    # as in the shipped examples, a benchmark session may run first on the SAME data source/handler (another
+    # rebalance kind, same dates), followed by user code peeking at the latest prices; then the judged strategy
+    plan["benchmark_first"] = None
+    if rng.random() < 0.35:
+        other = {"daily": "weekly", "weekly": "daily", "end_of_month": "daily", "buy_and_hold": "daily"}[cfg["rebalance"]]
+        plan["benchmark_first"] = {"rebalance": other, "weekday": rng.choice(cal.WEEKDAYS),
+                                   "peek": rng.random() < 0.5}
+    return plan
 
 
 def execute(plan, focus, trace=False):
@@ -130,14 +138,47 @@ def visible(out, limit):
     return v
 
 
+def _world_run(plan, market, ctx):
+    """One world: the judged session, possibly after a benchmark session and price peeks on the same source."""
+    cfg = plan["cfg"]
+    bf = plan.get("benchmark_first")
+    if not bf or cfg["data_via"] == "env":
+        return sl.run_session(cfg, market)
+    import shutil
+    from qstrader.data.daily_bar_csv import CSVDailyBarDataSource
+    from qstrader.asset.equity import Equity
+    from ..core import ts
+    dirpath = mk.scratch_dir()
+    try:
+        mk.write_market(market, dirpath)
+        try:
+            src = CSVDailyBarDataSource(dirpath, Equity, adjust_prices=cfg.get("adjust", True))
+        except Exception:
+            return sl.run_session(cfg, market)          # reported as the construction failure it is
+        bcfg = dict(cfg)
+        bcfg["rebalance"], bcfg["weekday"] = bf["rebalance"], bf["weekday"]
+        sl.run_session(bcfg, market, monitors=False, shared_source=src)
+        ctx.fault("benchmark_session_first_on_the_same_source")
+        if bf.get("peek"):
+            for sym in sorted(market["assets"]):
+                try:
+                    src.get_bid(ts(cfg["end"]), "EQ:" + sym)
+                    src.get_ask(ts(cfg["end"]), "EQ:" + sym)
+                except Exception:
+                    pass
+        return sl.run_session(cfg, market, shared_source=src)
+    finally:
+        shutil.rmtree(dirpath, ignore_errors=True)
+
+
 def _run(plan, ctx):
     P = "C07"
     cfg, T = plan["cfg"], plan["T"]
     limit = (T + 1) * DAY
     ctx.step = 0
     ctx.fault("future_" + plan["rewrite"])
-    a = sl.run_session(cfg, plan["market"])
-    b = sl.run_session(cfg, plan["market_b"])
+    a = _world_run(plan, plan["market"], ctx)
+    b = _world_run(plan, plan["market_b"], ctx)
     ctx.event("A", a.ctor_exc, a.exc, a.exc_at)
     ctx.event("B", b.ctor_exc, b.exc, b.exc_at)
     sched = cal.schedule(cfg["rebalance"], cfg["start"], cfg["end"], wd=cfg.get("weekday"))
